@@ -1,6 +1,7 @@
 import MgpuModel.C04
 import MgpuProofs.C04
 import MgpuProofs.C04Bits
+import MgpuProofs.C04Enc
 /-! # C04 — property theorems (decoding is total, deterministic, inverse to encoding)
 
 The tables (`Gen.formats`, `Gen.rowsBefore/After`, copy loop, registers) are regenerated from
@@ -110,6 +111,82 @@ theorem rows_reachable_all_fillings (r : Row) (hr : r ∈ allRows) :
     (`v_add_co_u32`-class opcode 281) with arbitrary low bits -/
 example : matchFormat 0x807fffff = formatOf FT_SOP2 ∧ matchFormat 0x80000000 = formatOf FT_SOP2 ∧
     matchFormat 0xD119ABCD = formatOf FT_VOP3b := by decide
+
+/-- One table row, one format, one encoded first dword: if the dword carries the format's
+    encoding and the row's opcode and `decodeRow` on it gives the expected instruction, then the
+    whole byte string `encode d ++ t` decodes to it. -/
+theorem roundtrip_of (c : Bool) (d : Desc) (row : Row) (hr : row ∈ allRows) (f : Format)
+    (hf : formatOf row.ft = some f) (hsec : ∀ l, encSecond d = some l → l < 2 ^ 32)
+    (h : encWord d < 2 ^ 32 ∧ encWord d / 2 ^ shiftOf f = f.encoding / 2 ^ shiftOf f ∧
+      extractBits (encWord d) f.opLo f.opHi = row.opcode ∧
+      ∀ w1?, (∀ l, encSecond d = some l → w1? = some l) →
+        decodeRow c f row (encWord d) w1? = .ok (instOf d)) (t : List Nat) :
+    decode c (encode d ++ t) = .ok (instOf d) := by
+  obtain ⟨hlt, hdiv, hop, hdec⟩ := h
+  obtain ⟨f', hf', hall⟩ := rows_reachable_all_fillings row hr
+  rw [hf] at hf'
+  injection hf' with hf'
+  subst hf'
+  obtain ⟨hm, hl⟩ := hall (encWord d) hlt
+    ((formats_hit_iff_div f (formatOf_mem hf).1 _ hlt).mpr hdiv) hop
+  unfold encode
+  rw [List.append_assoc, decode_bytes32 c _ hlt, decodeCore_of _ hm hl]
+  apply hdec
+  intro l hl
+  rw [hl]
+  exact second_bytes32 l (hsec l hl) t
+
+/-- **Encode/decode round trip** for the scalar formats SOP2, SOPK, SOP1, SOPC, SOPP (field
+    packing written out from the ISA manual in `encWord`, independent of the format table): every
+    well-formed description — opcode in the decode table, operand codes in range and denoting an
+    operand, a 32-bit literal present exactly when a source field says 255 — encodes to bytes that
+    decode, whatever bytes follow, to exactly the instruction the description denotes (`instOf`:
+    name and opcode of the table row, each operand at its role, the literal value, size 4 or 8). -/
+theorem decode_encode_scalar (c : Bool) (d : Desc) (hwf : wellFormed d = true)
+    (hsc : d.ft = FT_SOP2 ∨ d.ft = FT_SOPK ∨ d.ft = FT_SOP1 ∨ d.ft = FT_SOPC ∨ d.ft = FT_SOPP)
+    (t : List Nat) : decode c (encode d ++ t) = .ok (instOf d) := by
+  unfold wellFormed at hwf
+  simp only [Bool.and_eq_true, beq_iff_eq] at hwf
+  obtain ⟨⟨⟨hlk, hfo⟩, hl⟩, hlb⟩ := hwf
+  cases hrow : lookUp d.ft d.op with
+  | none => simp [hrow] at hlk
+  | some row =>
+    obtain ⟨hr, hrf, hro⟩ := lookUp_some hrow
+    have hfill := List.all_eq_true.mp rows_fill row hr
+    cases hf : formatOf row.ft with
+    | none => simp [rowFill, hf] at hfill
+    | some f =>
+      have hfit := opcode_fits_of_rowFill hfill hf
+      obtain ⟨hfm, hfft⟩ := formatOf_mem hf
+      rw [hro] at hfit
+      rw [hrf] at hfft
+      have hsec := fun l => encSecond_lt hfo hlb (l := l)
+      rcases hsc with h | h | h | h | h
+      · obtain ⟨a1, a2, a3, a4, a5⟩ := fmt_sop2 f hfm (hfft.trans h)
+        rw [a2, a3] at hfit
+        refine roundtrip_of c d row hr f hf hsec ?_ t
+        rw [a2, a3, a4, a5, hro]
+        exact enc_sop2 c d row f h (hfft.trans h) a1 hrow (by simpa using hfit) hfo hl
+      · obtain ⟨a1, a2, a3, a4, a5⟩ := fmt_sopk f hfm (hfft.trans h)
+        rw [a2, a3] at hfit
+        refine roundtrip_of c d row hr f hf hsec ?_ t
+        rw [a2, a3, a4, a5, hro]
+        exact enc_sopk c d row f h (hfft.trans h) a1 hrow (by simpa using hfit) hfo hl
+      · obtain ⟨a1, a2, a3, a4, a5⟩ := fmt_sop1 f hfm (hfft.trans h)
+        rw [a2, a3] at hfit
+        refine roundtrip_of c d row hr f hf hsec ?_ t
+        rw [a2, a3, a4, a5, hro]
+        exact enc_sop1 c d row f h (hfft.trans h) a1 hrow (by simpa using hfit) hfo hl
+      · obtain ⟨a1, a2, a3, a4, a5⟩ := fmt_sopc f hfm (hfft.trans h)
+        rw [a2, a3] at hfit
+        refine roundtrip_of c d row hr f hf hsec ?_ t
+        rw [a2, a3, a4, a5, hro]
+        exact enc_sopc c d row f h (hfft.trans h) a1 hrow (by simpa using hfit) hfo hl
+      · obtain ⟨a1, a2, a3, a4, a5⟩ := fmt_sopp f hfm (hfft.trans h)
+        rw [a2, a3] at hfit
+        refine roundtrip_of c d row hr f hf hsec ?_ t
+        rw [a2, a3, a4, a5, hro]
+        exact enc_sopp c d row f h (hfft.trans h) a1 hrow (by simpa using hfit) hfo hl
 
 /-- **Reported sizes are 4 or 8 and never exceed the buffer**, for every byte string. -/
 theorem decode_size (cdna3 : Bool) (buf : List Nat) (i : Inst)
